@@ -67,6 +67,10 @@ using Universe = TL<
     array<u8, 3>, array<i32, 3>, array<float, 3>, array<string, 3>, array<i32, 2>, array<W1<i32>, 3>,
     i32[3], string[3], float[3], u8[3],
     tuple<i32, i32, i32>, tuple<W1<i32>, i32, i32>, tuple<W1<i32>, W1<i32>>, tuple<u8, u8, W1<u8>>, tuple<float, float, float>, tuple<string, string, string>, tuple<i32, string>, tuple<string, i32>, tuple<i32, i32>,
+    // five and more operands: every position takes part in the conjunction, also the fifth and later ones
+    tuple<i32, string, i32, string, i32>, tuple<i32, string, i32, string, string>, tuple<i32, string, i32, string, W1<i32>>,
+    tuple<i32, i32, i32, i32, i32, i32>, tuple<i32, i32, i32, i32, i32, string>, tuple<i32, i32, i32, i32, float, i32>,
+    Variant<i32, string, float, u8, u64>, Variant<i32, string, float, u8, vector<u8>>, Variant<i32, string, float, u8, u64, i8>,
     pair<i32, string>, pair<string, i32>, pair<i32, i32>, pair<i32, W1<string>>,
     map<i32, string>, unordered_map<i32, string>, map<i32, W1<string>>, map<u8, string>,
     S1<vector<i32>>, S1<vector<string>>, S1<vector<u8>>, S1<vector<float>>,
